@@ -484,4 +484,15 @@ def run(chk):
     for N in sizes:
         for _ in range((2 if N <= 12 else 1) if quick else (2 if N > 16 else 8)):
             oracle_config(chk, ps, config(chk.rng, N), nprng)
+    # call-history independence: the SAME grid (N, delta) with other outer/inner scales and r0, one after the other in this
+    # process — anything remembered from an earlier call (a spectrum cached per grid, say) shows up as a wrong covariance
+    for N in ([6, 10] if quick else [4, 6, 10, 12, 16]):
+        base = config(chk.rng, N)
+        for k in range(3):
+            c = dict(base, L0=base["L0"] * [1.0, 7.3, 0.31][k], l0=base["l0"] * [1.0, 0.5, 3.0][k], r0=base["r0"] * [1.0, 1.7, 0.6][k])
+            chk.count("oracle:same-grid-sequence")
+            oracle_config(chk, ps, c, nprng, do_sh=(k == 2))
+    # even sizes with a large prime factor (FFT implementations treat them differently from 2^a 3^b 5^c sizes)
+    for N in ([26] if quick else [26, 34, 38]):
+        oracle_config(chk, ps, config(chk.rng, N), nprng, do_sh=False)
     numeric_clauses(chk, ps, quick)
